@@ -18,6 +18,9 @@ def harnesses(tier):
             scenario_harness("flat-simultaneous", Profile(
                 templates=("F3",), forever="free", post=1, ties=True, perm="id", top="pure", edges="free"),
                 o, required_notes=("c02_success_runs",)),
+            scenario_harness("flat-outcomes-critical", Profile(
+                templates=("F3",), raises="free", crit_job="free", edges="none", perm="two", top="pure",
+                task_hash="free"), o, required_notes=("c02_success_runs",)),
             scenario_harness("nested-critical-timeout", Profile(
                 templates=("N12",), raises="free", crit_job="free", timeout="free", timeout_scope="nested",
                 perm="id", top="sched"), o, required_notes=("c02_success_runs",)),
